@@ -12,7 +12,8 @@ third wave on, one-line descriptions of earlier changes to avoid), in its own sc
 `bin/confirm_seeded.sh` had confirmed that it applies, builds, passes the tests of the touched packages and the pinned
 suite, and that its demonstration fails with it and passes without it. `bin/seeded_sweep.py` then applies each change to a
 scratch worktree (never to /repo), runs the checks named in its meta.json against that tree (quick tier, seeds 1 and 2) and
-records the outcome. Three waves (first session: mut1..mut8; this session: mutA*, mutB*, mutC*). What the misses taught is
+records the outcome. Four waves (first session: mut1..mut8; second session: mutA*, mutB*, mutC*; third session: mutD1..mutD5,
+run one by one with `bin/mutrun`, their first-run misses and what closed them are in the last column). What the misses taught is
 in §0 ("additions of the second build session"): most first-run misses were closed by richer inputs, generated patterns
 with a rendezvous, build-time knobs for unreachable size thresholds, crash-cut and tear biases, concurrency where the
 harness had whole operations only - and two by narrowing known-finding signatures that had swallowed them. The remaining
